@@ -30,6 +30,8 @@ type C11Obs struct {
 	Relayed        bool   `json:"relayed"`
 	Crashed        bool   `json:"crashed"`
 	Reason         string `json:"reason,omitempty"`
+	// verdict once the node has shut down (the validation context of a message that waits for a verifier ends then)
+	Final string `json:"final"`
 }
 
 type C11Rec struct {
@@ -194,6 +196,8 @@ func runSubscriberGroup(t *testing.T, group []map[string]any, withVerifier bool,
 			}
 		}()
 		chain := vh.NewChain(networkID, 1, len(group)+5, time.Now().Add(-time.Hour), time.Second, 0)
+		var recs []C11Rec
+		var mids []string
 		for gi, c := range group {
 			in := mbt.Map(c, "in")
 			id := mbt.Int(c, "id")
@@ -203,7 +207,7 @@ func runSubscriberGroup(t *testing.T, group []map[string]any, withVerifier bool,
 			var data []byte
 			switch payload {
 			case "valid", "local":
-			case "invalid":
+			case "invalid", "localInvalid":
 				hdr.Invalid = true
 			case "decodepanic":
 				hdr.DecodePanic = true
@@ -223,7 +227,7 @@ func runSubscriberGroup(t *testing.T, group []map[string]any, withVerifier bool,
 						crashed = true
 					}
 				}()
-				if payload == "local" {
+				if payload == "local" || payload == "localInvalid" {
 					bctx, bcancel := context.WithTimeout(ctx, 5*time.Second)
 					err := sub.Broadcast(bctx, hdr)
 					bcancel()
@@ -243,7 +247,7 @@ func runSubscriberGroup(t *testing.T, group []map[string]any, withVerifier bool,
 			synctest.Wait()
 			mid := string(func() []byte { h := sha256.Sum256(data); return h[:] }())
 			tr.mu.Lock()
-			if v, ok := tr.verdict[mid]; ok && payload != "local" {
+			if v, ok := tr.verdict[mid]; ok && payload != "local" && payload != "localInvalid" {
 				obs.Verdict, obs.Reason = v, tr.reason[mid]
 			}
 			tr.mu.Unlock()
@@ -259,7 +263,9 @@ func runSubscriberGroup(t *testing.T, group []map[string]any, withVerifier bool,
 			obs.Relayed = relayed[mid]
 			dmu.Unlock()
 			obs.Crashed = obs.Crashed || crashed
-			tw.Put(C11Rec{Tr: id, In: in, Obs: obs})
+			obs.Final = obs.Verdict
+			recs = append(recs, C11Rec{Tr: id, In: in, Obs: obs})
+			mids = append(mids, mid)
 			res := mbt.Result{ID: id, Key: mbt.J(in), NonTriv: obs.Verdict != "accept", Verdict: "ok"}
 			want := mbt.Map(c, "predicted")
 			if obs.Verdict != mbt.Str(want, "verdict") || obs.Delivered != mbt.Bool(want, "delivered") || obs.Relayed != mbt.Bool(want, "relayed") {
@@ -273,6 +279,16 @@ func runSubscriberGroup(t *testing.T, group []map[string]any, withVerifier bool,
 		_ = net.Close()
 		time.Sleep(time.Second)
 		synctest.Wait()
+		tr.mu.Lock()
+		for i := range recs {
+			if v, ok := tr.verdict[mids[i]]; ok && recs[i].Obs.Verdict == "none" {
+				recs[i].Obs.Final = v
+			}
+		}
+		tr.mu.Unlock()
+		for _, r := range recs {
+			tw.Put(r)
+		}
 	})
 }
 
